@@ -2163,3 +2163,48 @@ def backward_locals(body, start_defs):
         for d in defs.get(l, []) + defs.get((l, 'proj'), []):
             feed(d)
     return seen
+
+
+def scrutinee_none_defs(body, cond):
+    """MIR definitions `local = None` of the (projection-free) local whose discriminant the switch of `cond` reads:
+    [(bb, path conditions of bb)]. The expression builder merges equal phi alternatives, so a rule that asks 'under which
+    conditions can this option be None' reads the definitions themselves."""
+    term = body.blocks[cond.x]['t']
+    op = term.get('discr')
+    if not op or op.get('k') not in ('copy', 'move') or op['pl']['p']:
+        return None
+    out = []
+    seen = set()
+    work = [op['pl']['l']]
+    while work:
+        l = work.pop()
+        if l in seen:
+            continue
+        seen.add(l)
+        for d in body.defs().get(l, []):
+            if d[0] != 'assign' or d[1] not in body.live_blocks():
+                continue
+            rv = d[3]['rv']
+            if rv.get('k') == 'discr' and not rv['pl']['p']:
+                work.append(rv['pl']['l'])
+            elif rv.get('k') == 'discr' and len(rv['pl']['p']) == 1 and isinstance(rv['pl']['p'][0], dict) and \
+                    set(rv['pl']['p'][0]) == {'f'}:
+                # `match (a, b) { (Some(..), Some(..)) => .. }`: component f of a tuple built from locals
+                fi = rv['pl']['p'][0]['f']
+                for d2 in body.defs().get(rv['pl']['l'], []):
+                    if d2[0] != 'assign':
+                        continue
+                    rv2 = d2[3]['rv']
+                    if not d2[3]['lhs']['p'] and rv2.get('k') == 'agg' and rv2.get('ak') == 'tuple' and fi < len(rv2['ops']) \
+                            and rv2['ops'][fi].get('k') in ('copy', 'move') and not rv2['ops'][fi]['pl']['p']:
+                        work.append(rv2['ops'][fi]['pl']['l'])
+                    elif d2[3]['lhs']['p'] == [{'f': fi}] and rv2.get('k') == 'use' and rv2['op'].get('k') in (
+                            'copy', 'move') and not rv2['op']['pl']['p']:
+                        work.append(rv2['op']['pl']['l'])
+                    elif d2[3]['lhs']['p'] == [{'f': fi}] and rv2.get('k') == 'agg' and rv2.get('v') == 'None':
+                        out.append((d2[1], path_conditions(body, d2[1])))
+            elif rv.get('k') == 'use' and rv['op'].get('k') in ('copy', 'move') and not rv['op']['pl']['p']:
+                work.append(rv['op']['pl']['l'])
+            elif rv.get('k') == 'agg' and rv.get('v') == 'None':
+                out.append((d[1], path_conditions(body, d[1])))
+    return out
